@@ -200,6 +200,25 @@ fn enumerate_faults(base: &v1::Instance) -> Vec<Fault> {
             }
         }
     }
+    // a hint added to any base (also one without hints, also one without active constraints) that names a
+    // constraint / variable defined nowhere
+    {
+        let kind: &'static str = if na == 0 { "hint-added-undefined-constraint@no-active-constraints" } else { "hint-added-undefined-constraint" };
+        let first_var = base.decision_variables.first().map(|v| v.id);
+        v.push(fault("one_hot-added.constraint-undefined".into(), kind, false, Some(("UndefinedConstraintID", "constraint_hints")), move |m| {
+            let mut oh = v1::OneHot::default();
+            oh.constraint_id = 77_777_779;
+            oh.decision_variables = first_var.into_iter().collect();
+            m.constraint_hints.get_or_insert_with(Default::default).one_hot_constraints.push(oh);
+        }));
+        v.push(fault("sos1-added.constraint-undefined".into(), kind, false, Some(("UndefinedConstraintID", "constraint_hints")), move |m| {
+            let mut sos = v1::Sos1::default();
+            sos.binary_constraint_id = 77_777_780;
+            sos.big_m_constraint_ids = vec![77_777_781];
+            sos.decision_variables = first_var.into_iter().collect();
+            m.constraint_hints.get_or_insert_with(Default::default).sos1_constraints.push(sos);
+        }));
+    }
     // dependencies
     v.push(fault("dependency-key-undefined".into(), "dependency-key-undefined", false, Some(("UndefinedVariableID", "decision_variable_dependency")), |m| {
         m.decision_variable_dependency.insert(UNDEF + 1, crate::mk::fconst(1.0));
@@ -394,7 +413,7 @@ impl Property for C08 {
         let mut v: Vec<String> = [
             "dup-variable-id", "dup-constraint-id@active", "dup-constraint-id@active/removed", "dup-constraint-id@removed", "undefined-id@objective", "undefined-id@constraint", "undefined-id@removed", "unset-sense", "unset-objective",
             "unset-objective-oneof", "unset-constraint-function", "unset-constraint-function-oneof", "unset-equality", "unset-removed-constraint", "unset-removed-function", "unset-removed-function-oneof", "unset-removed-equality", "unset-kind",
-            "bound-nan-lower", "bound-nan-upper", "bound-lower=+inf", "bound-upper=-inf", "bound-lower>upper", "bound-lower>upper-by-one-ulp", "undefined-id@objective/zero-coefficient", "hint-undefined-constraint", "hint-undefined-variable", "hint-repeated-variable", "hint-repeated-big-m", "dependency-key-undefined",
+            "bound-nan-lower", "bound-nan-upper", "bound-lower=+inf", "bound-upper=-inf", "bound-lower>upper", "bound-lower>upper-by-one-ulp", "undefined-id@objective/zero-coefficient", "hint-undefined-constraint", "hint-added-undefined-constraint", "hint-added-undefined-constraint@no-active-constraints", "hint-undefined-variable", "hint-repeated-variable", "hint-repeated-big-m", "dependency-key-undefined",
             "dependency-function-unset",
         ]
         .iter()
